@@ -41,17 +41,18 @@ LEVEL = "exploration"
 RULE = (
     "layouts = (IDF root is/is not itself a project) x rename files {place: X|Y|XY} (<=3) x defaults files {place: X|Y|XY} "
     "(1..3) over 7 places, canonical under the X<->Y symmetry; quick: one-option layouts with (r<=2,d<=3) or (r=3,d<=2) plus "
-    "two-option layouts with r<=2,d<=2,r+d<=3; thorough: all one-option layouts r<=3,d<=3 plus all two-option layouts with "
-    "r+d<=4. Per layout: invocation variants (IDF_PATH env / cwd fallback; explicit rename files none/each/all; --includes "
+    "two-option layouts with r<=2,d<=2,r+d<=3; thorough: all one-option layouts r<=3,d<=3 plus the two-option layouts with "
+    "r+d<=4 (d=3: defaults files name one option each; r=d=2: rename files name one option each). Per layout: invocation variants (IDF_PATH env / cwd fallback; explicit rename files none/each/all; --includes "
     "none / examples / examples/pa / [thorough: root, examples/common, examples/pa/nested, two dirs]) x EVERY non-empty "
-    "ordered selection of the defaults files (variants that cannot touch the caches use singletons + full list forward and "
-    "reversed in quick). One evaluation = one invocation (prepare + one check call per file). distinct_nontrivial = distinct "
+    "ordered selection of the defaults files (single explicit rename files, which only change the global set, and in quick the "
+    "cwd / explicit variants use singletons + the full list forward and reversed). One evaluation = one invocation (prepare + one check call per file). distinct_nontrivial = distinct "
     "(layout, explicit, includes, verdict vector)."
 )
 ASSUMPTIONS = [
-    "the IDF root is not a 'project' in the sense of the statement even when its CMakeLists.txt calls project() (ESP-IDF's does); "
-    "where that reading and the literal one disagree (orphan file + orphan rename file under a root that calls project()) the "
-    "verdict oracle is skipped (counter ambiguous_root_project) and only order-independence is checked",
+    "the IDF root is not a 'project' in the sense of the statement even when its CMakeLists.txt calls project() (ESP-IDF's does; the "
+    "repository's own fixture and test_orphan_rename_is_invisible say an orphan rename file is not discovered unless a file inside "
+    "that directory is checked). Only for a defaults file that itself lives in the orphan directory under such a root do the two "
+    "readings disagree; there the verdict oracle is skipped (counter ambiguous_root_project), order-independence is still checked",
     "`# CONFIG_X is not set` lines are not generated (the statement does not say whether they 'assign')",
     "no project() above the IDF root (scratch tree on tmpfs); --exclude-submodules not used",
 ]
@@ -157,6 +158,10 @@ def _one_option(ren, dfl) -> bool:
     return all(c == "X" for _, c in ren) and all(c == "X" for _, c in dfl)
 
 
+def _no_xy(a) -> bool:
+    return all(c != "XY" for _, c in a)
+
+
 def in_tier(ren, dfl, tier: str) -> bool:
     r, d = len(ren), len(dfl)
     if _one_option(ren, dfl):
@@ -164,7 +169,13 @@ def in_tier(ren, dfl, tier: str) -> bool:
             return True
         return (r <= 2 and d <= 2) or (r <= 1 and d == 3) or (r == 3 and d == 1)
     if tier == "thorough":
-        return r + d <= 4
+        if r + d > 4:
+            return False
+        if d == 3:
+            return _no_xy(dfl)
+        if r == 2 and d == 2:
+            return _no_xy(ren)
+        return True
     return r <= 2 and d <= 2 and r + d <= 3
 
 
@@ -186,26 +197,23 @@ def layouts(tier: str):
 
 
 def variants(layout: dict, tier: str) -> List[Tuple[tuple, bool]]:
-    """[(variant, full_orders)], variant = (idf_via, explicit rename places, include dirs)"""
+    """[(variant, full_orders)], variant = (idf_via, explicit rename places, include dirs).  full_orders: every non-empty
+    ordered selection; otherwise singletons + the full list forward and reversed (variants that only change the global set)."""
     rp = tuple(layout["renames"])
-    explicit_sets: List[tuple] = [(p,) for p in rp]
-    if len(rp) >= 2:
-        explicit_sets.append(rp)
-    out: List[Tuple[tuple, bool]] = []
     thorough = tier == "thorough"
     incs = INCLUDE_DIRS_THOROUGH if thorough else INCLUDE_DIRS_QUICK
-    out.append((("env", (), ()), True))
+    out: List[Tuple[tuple, bool]] = [(("env", (), ()), True)]
     for inc in incs:
         out.append((("env", (), inc), True))
     out.append((("cwd", (), ()), thorough))
     out.append((("cwd", (), ("examples",)), thorough))
-    if thorough:
-        for inc in incs[1:]:
-            out.append((("cwd", (), inc), True))
-    for e in explicit_sets:
-        out.append((("env", e, ()), thorough))
+    for p in rp:
+        out.append((("env", (p,), ()), False))
+    if len(rp) >= 2:
+        out.append((("env", rp, ()), thorough))
     if thorough and rp:
-        out.append((("env", rp, ("examples",)), True))
+        if len(rp) == 1:
+            out.append((("env", rp, ()), True))
         out.append((("cwd", (rp[0],), ("examples/pa",)), True))
     return out
 
@@ -444,7 +452,8 @@ def check_group(layout: dict, variant: tuple, order_list: List[Tuple[str, ...]],
             # O1
             want_a = spec_verdict(layout, variant, fplace, literal_root=False)
             want_b = spec_verdict(layout, variant, fplace, literal_root=True)
-            if want_a != want_b:
+            if want_a != want_b and nearest_project(fplace, PROJECTS) is None and fplace not in ("", "components/c"):
+                # the file itself lives in the orphan directory under a root that calls project(): see ASSUMPTIONS
                 r.count("ambiguous_root_project")
                 r.skipped += 1
             elif flagged != want_a:
